@@ -155,3 +155,80 @@ example : (stepChecked anyLegal emptySt { kind := .add true, iso := some [[65]],
   decide
 
 end Pycdlib.Atomic
+
+namespace Pycdlib.Atomic
+
+/-! ### tree well-formedness is an invariant of every accepted edit -/
+
+/-- no path occurs twice, no entry is the root, and every entry's parent is a directory of the same namespace -/
+def WfNs (ns : Ns) : Prop :=
+  (ns.map (·.path)).Nodup ∧ ∀ e ∈ ns, e.path ≠ [] ∧ isDirAt ns e.path.dropLast = true
+
+def Wf (s : St) : Prop := ∀ w ns, s.get w = some ns → WfNs ns
+
+theorem hasPath_iff (ns : Ns) (p : Path) : hasPath ns p = true ↔ p ∈ ns.map (·.path) := by
+  simp only [hasPath, List.any_eq_true, List.mem_map, decide_eq_true_eq]
+
+theorem isDirAt_mono (ns : Ns) (e : Entry) (p : Path) (h : isDirAt ns p = true) : isDirAt (e :: ns) p = true := by
+  simp only [isDirAt, Bool.or_eq_true, decide_eq_true_eq, List.any_cons] at *
+  rcases h with h | h
+  · exact Or.inl h
+  · exact Or.inr (Or.inr h)
+
+theorem add_wf (legal : Bool → Name → Bool) (d : Bool) (p : Path) (ns : Ns) (h : WfNs ns)
+    (hc : checkAdd legal d p ns = none) : WfNs (⟨p, d⟩ :: ns) := by
+  unfold checkAdd at hc
+  cases hl : p.getLast? with
+  | none => simp [hl] at hc
+  | some name =>
+    simp only [hl] at hc
+    split at hc
+    · split at hc <;> cases hc
+    · rename_i hpar
+      split at hc
+      · cases hc
+      · split at hc
+        · cases hc
+        · rename_i hdup
+          have hne : p ≠ [] := by intro h0; subst h0; simp at hl
+          refine ⟨?_, ?_⟩
+          · simp only [List.map_cons, List.nodup_cons]
+            refine ⟨?_, h.1⟩
+            intro hin
+            exact hdup ((hasPath_iff ns p).mpr hin)
+          · intro e he
+            rcases List.mem_cons.mp he with rfl | he
+            · refine ⟨hne, isDirAt_mono ns _ _ ?_⟩
+              simpa using hpar
+            · exact ⟨(h.2 e he).1, isDirAt_mono ns _ _ (h.2 e he).2⟩
+
+theorem rmdir_wf (p : Path) (ns : Ns) (h : WfNs ns) (hc : checkRmdir p ns = none) :
+    WfNs (ns.filter fun e => e.path ≠ p) := by
+  unfold checkRmdir at hc
+  split at hc; · cases hc
+  split at hc; · cases hc
+  split at hc; · cases hc
+  split at hc; · cases hc
+  rename_i hroot _ _ hchild
+  refine ⟨?_, ?_⟩
+  · have : ((ns.filter fun e => e.path ≠ p).map (·.path)).Sublist (ns.map (·.path)) :=
+      (List.filter_sublist).map _
+    exact this.nodup h.1
+  · intro e he
+    have hmem := (List.mem_filter.mp he).1
+    have hkeep := (List.mem_filter.mp he).2
+    refine ⟨(h.2 e hmem).1, ?_⟩
+    have hpar := (h.2 e hmem).2
+    simp only [isDirAt, Bool.or_eq_true, decide_eq_true_eq, List.any_eq_true, Bool.and_eq_true] at hpar ⊢
+    rcases hpar with h0 | ⟨x, hx, hxp, hxd⟩
+    · exact Or.inl h0
+    · right
+      refine ⟨x, List.mem_filter.mpr ⟨hx, ?_⟩, hxp, hxd⟩
+      -- the parent of a surviving entry is not the removed directory, because that one had no children
+      simp only [decide_eq_true_eq]
+      intro hxeq
+      apply hchild
+      simp only [hasChild, List.any_eq_true, Bool.and_eq_true, decide_eq_true_eq]
+      exact ⟨e, hmem, by rw [← hxeq, hxp], (h.2 e hmem).1⟩
+
+end Pycdlib.Atomic
